@@ -1497,7 +1497,7 @@ class UTPM(Ring, RawAlgorithmsMixIn):
         su = cls.sign(du)
         au = cls.abs(du)
         c = cls.piv2det(PIV) * cls.prod(su)
-        return cls.log(c) + cls.sum(cls.log(au))
+        return cls.log(cls.abs(c)) + cls.sum(cls.log(au))
 
 
     @classmethod
